@@ -186,11 +186,13 @@ func VH_C02_Preimage() {
 	ht := sighash.Flag(vnondetU8("ht"))
 	vassume(ht&0x40 != 0)
 	if idx < uint32(len(tx.Inputs)) {
-		switch vnondetLen("missing", 0, 2) {
+		switch vnondetLen("missing", 0, 3) {
 		case 1:
 			tx.Inputs[idx].PreviousTxScript = nil
 		case 2:
 			tx.Inputs[idx].previousTxID = nil
+		case 3:
+			tx.Inputs[idx].previousTxID = []byte{} // what JSON decoding of "txid":"" leaves behind
 		}
 	}
 	before := tx.ExtendedBytes()
